@@ -82,6 +82,16 @@ def judge_children(w, tap, reach):
                                                                           'pfs': ch['pfs'], 'direction': 'responder->initiator', 'field': 'spi'},
                                    f'CHILD_SA {ch["spi_init"].hex()}/{ch["spi_resp"].hex()}: {ch["x_resp"]} sends towards SPI {ch["spi_init"].hex()}, the one the '
                                    f'request it answered announced, but {ch["x_init"]} installed its inbound SA with SPI {inbound} in the same step')
+        if q is not None and q[0] is not None and q[1] is not None and q[2] is not None and q[3] is None:
+            # the mirror case: the exchange responder installed its inbound half, and in the same step an outbound SA towards the initiator
+            # that does not carry the SPI of the proposal it chose
+            outbound = sorted(k[2].hex() for k, rec in idx[ch['x_resp']].items() if rec['t'] == q[1]['t'] and abs(rec['no'] - q[1]['no']) == 1
+                              and k[0] == _addr_raw(ch['x_init_addr']))
+            if outbound:
+                return w.violation(PROP, 'kernel_sas_not_mirror_images', {'kind': 'initial' if ch['initial'] else ('rekey' if ch['rekey_of'] else 'additional'),
+                                                                          'pfs': ch['pfs'], 'direction': 'responder->initiator', 'field': 'spi'},
+                                   f'CHILD_SA {ch["spi_init"].hex()}/{ch["spi_resp"].hex()}: {ch["x_init"]} receives on SPI {ch["spi_init"].hex()} (the SPI of the '
+                                   f'proposal that was chosen), but {ch["x_resp"]} installed its outbound SA with SPI {outbound} in the same step')
         if q is None or any(x is None for x in q):
             reach['children_one_sided_or_uninstalled'] = reach.get('children_one_sided_or_uninstalled', 0) + 1
             continue
@@ -144,6 +154,11 @@ def generate(seed, tier):
     if r.random() < 0.2:
         sc['controller_attrs'] = {'B': {'cookie_threshold': 0}, 'A': {'cookie_threshold': 0}}
         sc['meta']['cookie_pressure'] = True
+    if not lossy and 'sibling_window' not in sc and r.random() < 0.12:
+        # a peer that offers several proposals (each with its own SPI where no conforming responder can take it): the SAs installed are those
+        # of the proposal that was chosen
+        sc['byz'] = {'kind': 'multi_proposal_request', 'seed': r.randrange(2 ** 31)}
+        sc['meta']['byz'] = 'multi_proposal_request'
     return sc
 
 
@@ -156,6 +171,12 @@ def run(scenario):
         ctx['tap'] = Wiretap(w)
         ctx['kr'] = KeyringMonitor(w, ctx['tap'])
         ctx['packets'] = []
+        if scenario.get('byz'):
+            from sim import byz
+            from sim.interpose import Interposer
+            ip = ctx['ip'] = Interposer(w, ctx['tap'])
+            rule, _ = byz.make(scenario['byz']['kind'], scenario['byz']['seed'], w, ip, ctx['tap'], ctx.setdefault('reach', {}))
+            ip.rules.append(rule)
         sw = scenario.get('sibling_window')
         if sw:
             from sim.observe import parse_header
